@@ -21,6 +21,23 @@ PIDS = ['C%02d' % i for i in range(1, 21)]
 
 
 def one(path):
+    import signal
+    from sa import facts, core
+
+    def _late(signum, frame):
+        raise TimeoutError('no result after 300 s')
+    signal.signal(signal.SIGALRM, _late)
+    signal.alarm(300)
+    try:
+        return _one(path)
+    except TimeoutError as e:
+        name = os.path.basename(path.rstrip('/'))
+        return {'patch': name, 'checks': {'ALL': ['BROKEN %s' % e]}, 'rules': {'ALL': [('BROKEN', str(e))]}}
+    finally:
+        signal.alarm(0)
+
+
+def _one(path):
     from sa import facts, core
     name = os.path.basename(path.rstrip('/'))
     if os.path.isfile(path):
